@@ -107,8 +107,22 @@ func (s *c43Sim) beforeQuery(name string) error {
 		s.cancel()
 	}
 	tp := s.r.T
+	if s.nQuery >= s.budget {
+		// the run is over: the world stands still while the maintainer winds down
+		if s.nQuery > s.budget+4000 {
+			panic("c43: maintainer does not stop after its context was cancelled")
+		}
+		if s.pending {
+			s.epoch, s.pending = s.pendingFor, false
+		}
+		return nil
+	}
 	if s.growth {
-		switch tp.Weighted("mine", 10, 4, 2, 3, 1) {
+		mineEpochs := 0
+		if s.tip < s.needed()+c43Epoch {
+			mineEpochs = 1
+		}
+		switch tp.Weighted("mine", 10, 4, 2, 3, mineEpochs) {
 		case 1:
 			s.tip++
 			s.r.AddSim(0, 1)
@@ -265,10 +279,12 @@ type c43Relay struct{ s *c43Sim }
 func (c *c43Relay) Ready() (bool, error) {
 	s := c.s
 	s.closeIteration("maintainer restarted")
+	// a new proveEpochs session begins: earlier answers no longer count
+	s.ansReady, s.ansAuth = -1, -1
 	if err := s.beforeQuery("Ready"); err != nil {
 		return false, err
 	}
-	s.ansReady, s.ansAuth = 0, -1
+	s.ansReady = 0
 	if s.ready {
 		s.ansReady = 1
 	}
@@ -357,7 +373,7 @@ func (c *c43Relay) submit(name string, headers []*bitcoin.BlockHeader) error {
 		r.Failf("C43:wrong-submission-path", "%s called with DisableProxy=%v", name, s.cfg.DisableProxy)
 	}
 	if s.ansReady != 1 || s.ansAuth != 1 {
-		r.Failf("C43:submit-despite-negative-eligibility-answer", "%s called although the last eligibility answers were ready=%d authorised(for this path)=%d (1 yes, 0 no, -1 not asked)", name, s.ansReady, s.ansAuth)
+		r.Failf("C43:submit-despite-negative-eligibility-answer", "%s called although the eligibility answers of this proveEpochs session were ready=%d authorised(for this path)=%d (1 yes, 0 no, -1 not asked in this session)", name, s.ansReady, s.ansAuth)
 	}
 	if !s.haveEpoch || !s.haveProofLen {
 		r.Failf("C43:submit-without-epoch-query", "%s called in an iteration that did not read the current epoch and the proof length", name)
@@ -389,7 +405,10 @@ func (c *c43Relay) submit(name string, headers []*bitcoin.BlockHeader) error {
 	}
 	eligible := s.ready && s.authFor()
 	if !eligible && s.deauthBeforeIter && s.ansAuth == 1 {
-		r.Failf("C43:submit-after-deauthorisation-no-recheck", "%s called while the maintainer is not authorised: the authorisation was withdrawn before this proving iteration began and the maintainer did not check its eligibility again", name)
+		// the authorisation was withdrawn after the session's positive answer and
+		// before this iteration began; the maintainer acts on the stale answer
+		// (eligibility is checked once per proveEpochs session): observation only
+		r.Probe("stale-authorisation-submission")
 	}
 	// ---------- model ----------
 	sub := &c43Submission{epoch: e}
